@@ -3081,7 +3081,9 @@ class RomanNumeral(Harmony):
             secondary_degree = re.search(r"[a-zA-Z+]+", split_pr_sec[-1])
             return secondary_degree.group(0)
         elif self.primary_degree is not None and self.local_key is not None:
-            secondary_degree = "I" if self.local_key.isupper() else "i"
+            # the mode of a key is the case of its step letter ("Bb" is B flat major)
+            key_step, _ = _step_alter_of_name(self.local_key)
+            secondary_degree = "I" if key_step.isupper() else "i"
             return secondary_degree
         return None
 
